@@ -24,7 +24,7 @@ META = dict(
     bounds=dict(quick="p <= 3: every target y and every ordered regressor list S (int / list / range / array / empty styles); p = 4 with |S| <= 2; "
                       "monotonicity p <= 3; LGANM link p <= 3 (25 patterns x 4^p intervention assignments, tuple parameters)",
                 thorough="p = 4 all S; monotonicity p = 4 with |S| <= 1; LGANM link p = 4 with at most 2 intervened variables"),
-    outside=["floating-point rounding; singular regressor blocks", "repeated regressors in S", "p > 4", "unsorted regressor lists of length >= 3 at p = 4"],
+    outside=["floating-point rounding; singular regressor blocks", "repeated regressors in S", "p > 4", "unsorted regressor lists of length >= 3 at p = 4 with non-zero covariances (explored with a diagonal covariance only)"],
     stubs=["numpy -> symnp", "numpy.linalg.solve / inv -> exact adjugate/determinant contract stub"],
     assumptions=["z3 sound on QF_NRA"],
 )
@@ -222,13 +222,21 @@ def obligations(tier):
                          expect=('returned',), weight=6, timeout_ms=120000))
     # unsorted regressor lists of length 3 at p = 3 (normal equations only; the all-permutations comparison is left to
     # the cubes above).  The same lists at p = 4 were tried (after seeded change C06_r6) and withdrawn: with a fully
-    # symbolic 4 x 4 covariance the |S| = 4 queries end in solver timeouts (163 s wall, `unknown`), see DESIGN 11.5.
+    # symbolic 4 x 4 covariance the |S| = 4 queries end in solver timeouts (163 s wall, `unknown`); p = 4 is explored
+    # with a diagonal covariance instead (regress_unsorted_p4_diag below), see DESIGN 11.5.
     uns = []
     for p in (3,):
         for y in range(p):
             for S in _lists(p, y):
                 if len(S) > 2 and list(S) != sorted(S):
                     uns.append(dict(p=p, y=y, S=S, style='list', perms=False))
+    unsd = []
+    for y in range(4):
+        for S in _lists(4, y):
+            if len(S) > 2 and list(S) != sorted(S):
+                unsd.append(dict(p=4, y=y, S=S, style='list', perms=False, diag=True))
+    ob.append(Obligation('regress_unsorted_p4_diag', h_regress, unsd, "regress / mse on unsorted regressor lists of length 3 and 4, p = 4, "
+                         "DIAGONAL covariance (symbolic variances, zero covariances)", expect=('returned',), weight=4, timeout_ms=120000))
     ob.append(Obligation('regress_unsorted', h_regress, uns, "regress / mse on unsorted regressor lists of length 3, p = 3", expect=('returned',), weight=6, timeout_ms=120000))
     mono = []
     for p in (2, 3) + ((4,) if tier == 'thorough' else ()):
